@@ -212,6 +212,7 @@ class Fn:
         self.B = self.W // 8            # bytes per lane
         self.z = "0" if self.kind == "int" else "O.zero"
         self.vars = {}                  # C variable -> ('vec', bits) | ('int',) | ('outptr',) | ('alias', outptr)
+        self.used = set()               # intrinsics this helper applies (each must be validated against the hardware in the same run)
 
     def lanes(self, bits):
         return bits // self.W
@@ -277,6 +278,7 @@ class Fn:
                  "_mm256_extract_epi16": 16, "_mm256_extract_epi32": 32,
                  "_mm_extract_epi8": 8, "_mm_extract_epi32": 32, "_mm256_cvtsi256_si32": 32}
         self.need(f in table, "unsupported scalar extraction %s" % f)
+        self.used.add(f)
         wbits = table[f]
         s, b = self.vec(args[0])
         idx = self.const(args[1]) if len(args) > 1 else 0
@@ -290,6 +292,7 @@ class Fn:
         base = re.sub(r"^_mm(256|512)?_", "", f)
         width = {"_mm_": 128, "_mm2": 256, "_mm5": 512}[f[:4]] if f.startswith("_mm") else None
         self.need(width is not None, "unknown function %s" % f)
+        self.used.add(f)
 
         def v(i):
             s, b = self.vec(args[i])
@@ -424,6 +427,7 @@ def translate_function(text, name):
         m = re.match(r"_mm_store_ss\s*\(\s*(\w+)\s*,(.*)\)$", st)
         if m:
             fn.need(m.group(1) == outptr, "_mm_store_ss to something that is not the output pointer")
+            fn.used.add("_mm_store_ss")
             s, b = fn.vec(parse_expr(m.group(2)))
             result = ("(extract %s %s 0)" % (fn.z, s), ("lane",))
             continue
@@ -474,7 +478,7 @@ def translate_function(text, name):
     else:
         raise TranslateError("%s: result of unsupported type %r" % (name, t))
     head = "def %s %s%s : %s :=" % (name, "{α : Type} (O : F32Ops α) " if fn.kind == "f32" else "", " ".join(lean_params), rty)
-    return "\n".join([head] + lines + ["  " + s]), dict(name=name, kind=fn.kind, W=fn.W, args=argspec, ret=rspec)
+    return "\n".join([head] + lines + ["  " + s]), dict(name=name, kind=fn.kind, W=fn.W, args=argspec, ret=rspec, intrinsics=sorted(fn.used))
 
 
 def dispatch_case(info):
@@ -549,6 +553,9 @@ LANE_CALLS = {  # intrinsic -> (lean name, arity, kinds of args: v = lane value,
 }
 
 
+USED_LANE = {}      # function name -> intrinsics (and helpers) applied by esl_sse_logf / esl_sse_expf, filled by generate_logexp
+
+
 def tokenize2(s):
     toks, i = [], 0
     s = s.strip()
@@ -612,6 +619,7 @@ class LaneFn:
         if x == "(":
             e = self.expr(); self.expect(")"); return e
         if x in LANE_CALLS:
+            USED_LANE.setdefault(self.name, set()).add(x)
             self.expect("(")
             if x == "_mm_setzero_si128":
                 self.expect(")"); return "(0 : UInt32)"
@@ -727,6 +735,7 @@ def generate_logexp(src):
     select_is_blendv = re.sub(r"\s+", "", selbody) == "return_mm_blendv_ps(a,b,mask);"
     fns = []
     parts = []
+    USED_LANE.clear()
     for nm in ("esl_sse_logf", "esl_sse_expf"):
         fn, param, lines = translate_lane_function(text, nm, select_is_blendv)
         fns.append(fn); parts.append((fn, param, lines))
